@@ -49,7 +49,7 @@ FOOTERS = [
     ("example", ["", "Example::", "", "    thing(1, beta=2)"]),
 ]
 INDENTS = [0, 4, 8]
-LEADING = [False, True]
+LEADING = [False, True, "blanks"]
 SEPARATORS = [1, 2]
 TRAILING = ["none", "nl", "nl_indent"]
 STYLES = ["rest", "google", "numpydoc"]
@@ -61,7 +61,9 @@ def build(hk, style, fk, indent, leading, sep, trailing, variant="full"):
     lines = list(header) + [""] * (sep - 1) + section_lines(style, variant) + footer
     ind = " " * indent
     text = "\n".join((ind + l) if l else l for l in lines)
-    if leading:
+    if leading == "blanks":
+        text = "   \n" + text  # trailing blanks after the opening quotes: a first line that is whitespace-only, not empty
+    elif leading:
         text = "\n" + text
     if trailing == "nl":
         text += "\n"
@@ -226,6 +228,16 @@ def run(case):
                 missing = in_order(header_lines, out)
                 if missing is not None:
                     v("header_line_lost", missing, out, via="function", target=target, same_style=target == case["style"])
+                # the same with the default flags (what doctrans does): parse the function, emit its docstring at the function's indent level
+                transitions += 2
+                try:
+                    out = cdd.docstring.emit.docstring(cdd.function.parse.function(ast.parse(src).body[0]), docstring_format=target, indent_level=1, word_wrap=False)
+                except Exception as e:
+                    v("function_conversion_raises", "converted function", "%s: %s" % (type(e).__name__, str(e)[:100]), exc=type(e).__name__, via="function_default", target=target)
+                    continue
+                missing = in_order(header_lines, out)
+                if missing is not None:
+                    v("header_line_lost", missing, out, via="function_default", target=target, same_style=target == case["style"])
     # de-duplicate
     uniq, res = set(), []
     for x in viol:
@@ -240,7 +252,7 @@ def describe(tier):
     n = sum(1 for _ in space())
     return dict(
         rule="{n} docstrings = 3 headers (one line / two paragraphs / paragraph + bullet list) x 3 styles of a generated 2-parameter + return section x 4 footers "
-        "(none, notes, doctest, indented example) x indentation 0/4/8 x leading newline x separator (1 or 2 newlines) x 3 trailing-whitespace kinds; "
+        "(none, notes, doctest, indented example) x indentation 0/4/8 x leading newline (none, empty first line, whitespace-only first line) x separator (1 or 2 newlines) x 3 trailing-whitespace kinds; "
         "each through the splitter, and through parse -> emit into each of the 3 target styles (docstring and, at indentation 4, function route); "
         "a case = one docstring".format(n=n),
         bounds=dict(headers=[h[0] for h in HEADERS], footers=[f[0] for f in FOOTERS], indents=INDENTS, separators=SEPARATORS, trailing=TRAILING),
